@@ -2,7 +2,7 @@
 # Usage: make -f mk/lib.mk VARIANT=base|exc|opt|asan  [REPO=/repo]
 REPO    ?= /repo
 VARIANT ?= base
-B       := /verif/build
+B       ?= /verif/build
 O       := $(B)/lib/$(VARIANT)
 GEN     := $(B)/gen
 
